@@ -31,9 +31,11 @@ Import ListNotations. Open Scope Z_scope.
 
 # ------------------------------------------------------------------ schema (mirrors test/dataset classes)
 CLS = {"Position": 1, "Position4D": 2, "Orientation": 3, "Pose": 4, "Body": 5, "Handle": 6, "Container": 7,
-       "Connection": 8, "FixedConnection": 9, "PrismaticConnection": 10, "World": 11, "WorldEntity": 12, "Atom": 13}
+       "Connection": 8, "FixedConnection": 9, "PrismaticConnection": 10, "World": 11, "WorldEntity": 12, "Atom": 13,
+       "OriginalSimulatedObject": 14, "int": 100}
 ATTR = {"name": 1, "id_": 2, "x": 3, "y": 4, "z": 5, "w": 6, "position": 7, "orientation": 8, "size": 9,
-        "parent": 10, "child": 11, "world": 12, "id": 13, "element": 14, "type": 15, "charge": 16}
+        "parent": 10, "child": 11, "world": 12, "id": 13, "element": 14, "type": 15, "charge": 16,
+        "bodies": 17, "concept": 18, "placeholder": 19}          # bodies: a collection relationship, deliberately in no class's FIELDS
 PARENT = {"Position4D": "Position", "Handle": "Body", "Container": "Body", "FixedConnection": "Connection",
           "PrismaticConnection": "Connection", "Body": "WorldEntity", "Connection": "WorldEntity"}
 # field -> "int" | "str" | ("rel", target)         (all mapped to-one fields, inherited ones included)
@@ -47,6 +49,8 @@ FIELDS: Dict[str, Dict[str, Any]] = {
     "Connection": _CONN, "FixedConnection": _CONN, "PrismaticConnection": _CONN,
     "World": {"id": "int"}, "WorldEntity": {"world": ("rel", "World")},
     "Atom": {"element": "enum", "type": "int", "charge": "int"},       # element: Enum column (a String subclass in SQLAlchemy)
+    "OriginalSimulatedObject": {"concept": "deco", "placeholder": "int"},   # concept: TypeDecorator over text (an object or None in memory)
+    "int": {},                                                          # pseudo class of plain-valued variables: let(int, [...])
 }
 NULLABLE = {("Orientation", "w"), ("Body", "world"), ("Handle", "world"), ("Container", "world"),
             ("Connection", "world"), ("FixedConnection", "world"), ("PrismaticConnection", "world")}
@@ -73,8 +77,10 @@ def schema_term() -> str:
             items.append(f"({ATTR[a]}, {kind})")
         fs.append(f"({CLS[c]}, [{'; '.join(items)}])")
     sub = [f"({CLS[c]}, {CLS[a]})" for c in CLS for a in ancestors(c)]
-    enums = [f"({CLS[c]}, {ATTR[a]})" for c, fields in FIELDS.items() for a, k in fields.items() if k == "enum"]
-    return ("{| sc_fields := [" + "; ".join(fs) + "]; sc_sub := [" + "; ".join(sub) + "]; sc_enums := [" + "; ".join(enums) + "] |}")
+    def cols(kind):
+        return "; ".join(f"({CLS[c]}, {ATTR[a]})" for c, fields in FIELDS.items() for a, k in fields.items() if k == kind)
+    return ("{| sc_fields := [" + "; ".join(fs) + "]; sc_sub := [" + "; ".join(sub) + "]; sc_enums := [" + cols("enum") +
+            "]; sc_nums := [" + cols("int") + "]; sc_texts := [" + cols("str") + "] |}")
 
 
 # ------------------------------------------------------------------ worlds
@@ -82,7 +88,7 @@ def schema_term() -> str:
 STRS = ["Body1", "body1", "Bo", "B%", "a_c", "abc", "", "ABC", "b"]
 
 
-def gen_world(rng: core.Rng, nulls: bool) -> List[dict]:
+def gen_world(rng: core.Rng, nulls: bool, prismatic: bool = True) -> List[dict]:
     objs: List[dict] = []
 
     def add(c, f):
@@ -98,6 +104,8 @@ def gen_world(rng: core.Rng, nulls: bool) -> List[dict]:
            for _ in range(rng.randint(2, 4))]
     for _ in range(rng.randint(2, 5)):
         add("Pose", {"position": {"ref": rng.choice(pos)}, "orientation": {"ref": rng.choice(ori)}})
+    for _ in range(rng.randint(2, 3)):
+        add("OriginalSimulatedObject", {"concept": rng.choice([{"obj": "Cup"}, {"obj": "Bowl"}]), "placeholder": rng.randint(0, 3)})
     for _ in range(rng.randint(2, 4)):
         add("Atom", {"element": {"enum": rng.choice(["C", "H"])}, "type": rng.randint(0, 3), "charge": rng.randint(0, 3)})
     worlds = [add("World", {"id": rng.randint(0, 3)}) for _ in range(rng.randint(1, 2))]
@@ -109,7 +117,7 @@ def gen_world(rng: core.Rng, nulls: bool) -> List[dict]:
         if rng.chance(0.3):                                   # a second body equal to it by value
             bodies.append(add(c, dict(objs[-1]["f"])))
     for _ in range(rng.randint(2, 5)):
-        c = rng.choice(["FixedConnection", "PrismaticConnection", "Connection"])
+        c = rng.choice(["FixedConnection", "PrismaticConnection", "Connection"] if prismatic else ["FixedConnection", "Connection"])
         wref = None if nulls and rng.chance(0.3) else {"ref": rng.choice(worlds)}
         add(c, {"parent": {"ref": rng.choice(bodies)}, "child": {"ref": rng.choice(bodies)}, "world": wref})
     # equality-join structure: Fixed(Y->U) has two prismatic partners ending in Y, Fixed(U->X) has none, Fixed(Z->U) has one
@@ -117,6 +125,8 @@ def gen_world(rng: core.Rng, nulls: bool) -> List[dict]:
     X, Y, Z, U = (add("Body", {"name": n, "size": sz, "world": wj}) for n, sz in (("jx", 6), ("jy", 5), ("jz", 4), ("ju", 7)))
     for c, a, b in (("PrismaticConnection", X, Y), ("PrismaticConnection", Z, Y), ("FixedConnection", Y, U),
                     ("FixedConnection", U, X), ("PrismaticConnection", U, Z), ("FixedConnection", Z, U)):
+        if c == "PrismaticConnection" and not prismatic:
+            continue                                          # a world in which the other table of the joins is empty
         add(c, {"parent": {"ref": a}, "child": {"ref": b}, "world": wj})
     return objs
 
@@ -142,6 +152,11 @@ def join_queries() -> List[dict]:
                 plain = ["cmp", "==", ["attr", sel, ["child", "size"]], ["lit", 7]]
                 plain2 = ["cmp", "==", ["attr", sel, ["child", "size"]], ["lit", 6]]
                 plain3 = ["cmp", ">=", ["attr", sel, ["parent", "size"]], ["lit", 6]]
+                v3 = VARS[c2][1]
+                ej3 = ["cmp", "==", ["attr", sel, ["child" if r1 == "parent" else "parent"]], ["attr", v3, [r2]]]
+                out.append({"the": False, "sel": sel, "vars": {sel: sel_c, v2: c2, v3: c2}, "cond": ["and", ej, ej3]})      # two variables of one type
+                out.append({"the": False, "sel": sel, "vars": {sel: sel_c, v2: c2},
+                            "cond": ["cmp", "==", ["attr", sel, [r1, "world"]], ["attr", v2, ["world"]]]})                 # a join equality over two hops
                 for c in (["and", ej, ej2], ["or", ej, ej2], ["or", ej, plain], ["or", plain, ej], ["and", plain, ["or", ej, ej2]],
                           # or_(a, b, join) = OR(OR(a, b), join): the join alternative comes after a nested or_ has closed
                           ["or", ["or", plain, plain2], ej], ["or", ["or", plain2, plain3], ej2],
@@ -182,6 +197,9 @@ class LiveWorld:
             return None if v is None else self.objs[v["ref"]]
         if c == "Atom":
             return K(_NS["Element"][f["element"]["enum"]], f["type"], f["charge"])
+        if c == "OriginalSimulatedObject":
+            # (a None concept is stored as the text 'builtins.NoneType' by ConceptType and cannot be loaded again: C05's subject)
+            return K(_NS[f["concept"]["obj"]](), f["placeholder"])
         if c in ("Position",):
             return K(f["x"], f["y"], f["z"])
         if c in ("Position4D", "Orientation"):
@@ -195,6 +213,8 @@ class LiveWorld:
         return K(ref(f["parent"]), ref(f["child"]), world=ref(f["world"]))
 
     def domain(self, cname: str) -> List[Any]:
+        if cname == "int":
+            return [2, 4]
         return [ob for o, ob in zip(self.spec, self.objs) if is_sub(o["c"], cname)]
 
     def close(self):
@@ -213,8 +233,9 @@ def _imports():
     import test.dataset.example_classes as ex
     import test.dataset.semantic_world_like_classes as sw
     import test.dataset.ormatic_interface as oi
-    for n in ("Position", "Position4D", "Orientation", "Pose", "Atom", "Element"):
+    for n in ("Position", "Position4D", "Orientation", "Pose", "Atom", "Element", "OriginalSimulatedObject", "Cup", "Bowl"):
         _NS[n] = getattr(ex, n)
+    _NS["int"] = int
     for n in ("Body", "Handle", "Container", "Connection", "FixedConnection", "PrismaticConnection", "World"):
         _NS[n] = getattr(sw, n)
     _NS["Base"] = oi.Base
@@ -236,6 +257,8 @@ def val_term(v, keys: Optional[List[int]] = None) -> str:
         return f"VStr {zs(v)}"
     if isinstance(v, dict) and "enum" in v:
         return "VStr (0 :: " + zs(v["enum"]) + ")"           # an Enum member: marker 0, then the stored name
+    if isinstance(v, dict) and "obj" in v:
+        return "VStr " + zs(v["obj"])                        # an object behind a TypeDecorator: some non-empty text
     if isinstance(v, dict):
         return f"VRef {keys[v['ref']]}"
     raise TypeError(v)
@@ -289,6 +312,10 @@ def cond_term(c) -> str:
         return f"CTruth ({operand_term(c[1])})"
     if k == "inset":
         return "CInSet [" + "; ".join(val_term(v) for v in c[1]) + f"] ({operand_term(c[2])})"
+    if k == "incoll":                                       # in_(item, range / dict / tuple): translated like a list
+        return "CContains (OList [" + "; ".join(val_term(v) for v in c[2]) + f"]) ({operand_term(c[3])})"
+    if k == "other":
+        return "COther"
     raise ValueError(c)
 
 
@@ -299,7 +326,7 @@ def cond_vars(c, acc=None) -> List[str]:
             if x[0] in ("attr", "var"):
                 if x[1] not in acc:
                     acc.append(x[1])
-            elif x[0] in ("cmp", "in", "and", "or", "not", "truth", "inset"):
+            elif x[0] in ("cmp", "in", "and", "or", "not", "truth", "inset", "incoll", "other"):
                 cond_vars(x, acc)
     return acc
 
@@ -352,6 +379,14 @@ def build_query(q: dict, lw: LiveWorld):
             return not_(bc(c[1]))
         if k == "truth":
             return ex(c[1])
+        if k == "incoll":
+            vals = c[2]
+            cont = {"range": lambda: range(min(vals), max(vals) + 1), "dict": lambda: {v: 0 for v in vals},
+                    "tuple": lambda: tuple(vals)}[c[1]]()
+            return in_(ex(c[3]), cont)
+        if k == "other":
+            a = ex(c[2])
+            return (a.upper() == "A") if c[1] == "upper" else (a[0] == "a")
         if k == "inset":
             vals = [_NS["Element"][v["enum"]] if isinstance(v, dict) else v for v in c[1]]
             return in_(ex(c[2]), frozenset(vals) if len(vals) % 2 else set(vals))
@@ -405,7 +440,14 @@ def run_sql(q: dict, lw: LiveWorld) -> Tuple[list, str]:
         lw.session.rollback()
         return [[2], [2]], f"{type(e).__name__}: {str(e)[:100]}"
     try:
-        r = tr.evaluate()
+        if q.get("retranslate"):
+            tr.translate()
+        if q.get("iterate"):
+            r = list(tr)
+            if q["the"]:
+                r = r[0]
+        else:
+            r = tr.evaluate()
         if q["the"]:
             return [[0, [r.database_id]], [0, [r.database_id]]], ""
         return out_rows(False, [x.database_id for x in r]), ""
@@ -421,9 +463,10 @@ def run_sql(q: dict, lw: LiveWorld) -> Tuple[list, str]:
 # ------------------------------------------------------------------ generator
 VARS = {"Position": ("p", "q"), "Position4D": ("p4", "q4"), "Orientation": ("o", "o2"), "Pose": ("s", "t"),
         "Body": ("b", "b2"), "Handle": ("h", "h2"), "Connection": ("c", "d"), "FixedConnection": ("f", "f2"),
-        "PrismaticConnection": ("pc", "pc2"), "Atom": ("a", "a2")}
+        "PrismaticConnection": ("pc", "pc2"), "Atom": ("a", "a2"), "World": ("wd", "wd2"),
+        "OriginalSimulatedObject": ("so", "so2")}
 SEL_WEIGHT = ["Position"] * 3 + ["Pose"] * 4 + ["Connection"] * 3 + ["Body"] * 2 + ["Orientation", "Position4D", "Handle",
-                                                                                  "FixedConnection", "PrismaticConnection", "Atom", "Atom"]
+                                                                                  "FixedConnection", "PrismaticConnection", "Atom", "Atom", "OriginalSimulatedObject"]
 
 
 def chains(c: str, depth=0) -> List[Tuple[List[str], Any]]:
@@ -489,6 +532,8 @@ def gen_query(rng: core.Rng, spec: List[dict], mode: str) -> dict:
     def atom():
         r = rng.random()
         a, k = attr()
+        if k == "deco":                                      # a TypeDecorator column: only usable as a bare condition
+            return ["truth", a]
         if not isinstance(k, str):                           # relationship-valued operand
             r2 = rng.random()
             if r2 < 0.5:
@@ -517,6 +562,21 @@ def gen_query(rng: core.Rng, spec: List[dict], mode: str) -> dict:
                 return ["in", ["lit", rng.choice(["Body1xx", "abcABC", "xBox"])], a]                 # in_(col, 'hay') -> instr
             if r3 < 0.7:
                 return ["truth", a]
+            if r3 < 0.73 and k == "int" and a[1] == sel:
+                vals = sorted({rng.randint(0, 3) for _ in range(rng.randint(1, 3))})
+                kind = rng.choice(["range", "dict", "tuple"])
+                if kind == "range":
+                    vals = list(range(vals[0], vals[-1] + 1))
+                return ["incoll", kind, vals, a]
+            if r3 < 0.76 and k == "str" and a[1] == sel:
+                return ["other", rng.choice(["upper", "index"]), a]                                  # b.name.upper() == "A" / b.name[0] == "a"
+            if r3 < 0.79 and k in ("int", "str") and a[1] == sel:
+                return ["cmp", rng.choice(list(OPS)), a, ["lit", "1" if k == "int" else 1]]          # text against number
+            if r3 < 0.82 and k == "int" and a[1] == sel:
+                vars_["n"] = "int"
+                return ["cmp", rng.choice(["==", "<"]), a, ["var", "n"]]                             # variable over plain values
+            if r3 < 0.84 and sel_c == "World":
+                return ["truth", ["attr", sel, ["bodies"]]]                                          # a collection relationship
             if r3 < 0.76 and a[1] == sel and k != "enum":
                 return ["inset", sorted({lit(k) if lit(k) is not None else 0 for _ in range(rng.randint(1, 3))}, key=str), a]
             if r3 < 0.86 and sel_c in ("Connection", "FixedConnection", "PrismaticConnection") and a[1] == sel and any(o["c"] in ("Body", "Handle", "Container") for o in spec):
@@ -569,7 +629,12 @@ def gen_query(rng: core.Rng, spec: List[dict], mode: str) -> dict:
     vars_ = {v: t for v, t in vars_.items() if v == sel or v in used}
     if wild and rng.chance(0.03):
         return {"the": False, "setof": True, "sel": sel, "vars": vars_, "cond": c}
-    return {"the": rng.chance(0.15), "sel": sel, "vars": vars_, "cond": c}
+    q = {"the": rng.chance(0.15), "sel": sel, "vars": vars_, "cond": c}
+    if rng.chance(0.05):
+        q["retranslate"] = True                               # translator.translate() called a second time
+    if rng.chance(0.05):
+        q["iterate"] = True                                   # list(translator) instead of translator.evaluate()
+    return q
 
 
 def sweep_queries(full: bool) -> List[dict]:
@@ -583,6 +648,9 @@ def sweep_queries(full: bool) -> List[dict]:
         atoms = []
         for ch, k in cs:
             out.append({"the": False, "sel": sel, "vars": {sel: sel_c}, "cond": ["truth", ["attr", sel, ch]]})       # the column as condition
+            if k == "deco":
+                atoms.append(["truth", ["attr", sel, ch]])
+                continue
             for op in (OPS if k != "enum" else ("==", "!=")):
                 for v in lits[k]:
                     out.append({"the": False, "sel": sel, "vars": {sel: sel_c}, "cond": ["cmp", op, ["attr", sel, ch], ["lit", v]]})
@@ -715,7 +783,7 @@ def run(tier: str, seed: int, replay=None) -> int:
         nworlds, per = (8, 330) if tier == "quick" else (40, 700)
         for wn in range(nworlds):
             wr = rng.fork(wn)
-            wi = add_world(gen_world(wr, nulls=(wn % 2 == 1)))
+            wi = add_world(gen_world(wr, nulls=(wn % 2 == 1), prismatic=(wn != nworlds - 1)))
             for q in join_queries():                           # equality joins with 0 / 1 / 2 partners, an(...) and the(...)
                 cases.append({"q": q, "w": wi, "src": "gen:join"})
             if wn < 2:                                         # exhaustive small scope on one world without and one with None
@@ -852,9 +920,21 @@ def run(tier: str, seed: int, replay=None) -> int:
     # known findings: replay the witnesses
     by_witness = {c["src"]: c for c in corpus_cases}
     for f in core.load_findings(PROP):
-        c = by_witness.get(f.witness)
         if replay:
             continue
+        if f.witness.endswith(".py"):                          # a script that exits 1 while the defect is present
+            rc, out = core.sh([core.PY, str(core.VERIF / f.witness)], cwd=str(core.VERIF), timeout=300, env=core.IMPL_ENV)
+            if f.kind == "fixed":
+                rep.oblige(f"regression:{f.fid}", rc == 0, "" if rc == 0 else f"{f.witness} exits {rc}: " + out[-300:])
+                if rc != 0:
+                    rep.violation({"kind": "counterexample", "why": f"regression of fixed finding {f.fid}", "python": f"PYTHONPATH=<repo>/src:<repo> python {f.witness}",
+                                   "output": out[-800:]})
+            elif rc != 0:
+                rep.known(f)
+            else:
+                rep.note(f"known finding {f.fid} no longer reproduces on its witness (repaired?)")
+            continue
+        c = by_witness.get(f.witness)
         if c is None:
             rep.oblige(f"finding:{f.fid}", False, f"witness {f.witness} missing")
             continue
